@@ -3,7 +3,7 @@ import binascii
 from .common import Check, correspond, canon, I64MIN, I64MAX
 from . import civil as C
 
-THEOREMS = {'C15': []}
+THEOREMS = {'C15': ['Cctz.C15.toName', 'Cctz.C15.toAbbr', 'Cctz.C15.fromName_toName', 'Cctz.C15.fromName_iff', 'Cctz.C15.constants']}
 PREFIX = b'Fixed/UTC'
 
 
